@@ -48,21 +48,35 @@ def seeds():
         s.append(hdr(0, 1) + tmpl(1, M[m], 3, p) + tmpl(2, M[m], 4, p) + INFO)
     return s
 
+def mrec(kind, conn=0, a=0, b=0, c=0, d=0, join=0, strid=0): return bytes([kind | ((conn & 3) << 4) | (join << 6) | (strid << 7), a & 255, b & 255, c & 255, d & 255])
+def model_seeds():
+    K = dict(add=0, remove=1, change=2, fetch=3, unfetch=4, get=5, set=6, call=7, reply=8, info=9, connect=10, end=11, advance=12, rawreq=13, mutreq=14, batch=15)
+    s = []
+    for b0 in (0b000100, 0b010001, 0b100110):
+        h = bytes([b0, 1])
+        s.append(h + mrec(K["fetch"], 1, 0, 0) + mrec(K["add"], 0, 0, 1) + mrec(K["add"], 0, 1, 128) + mrec(K["change"], 0, 0, 3, 4) + mrec(K["set"], 2, 0, 5, 4) + mrec(K["reply"], 0, 0, 0, 2)
+                 + mrec(K["call"], 2, 1, 2, 4, 0, strid=1) + mrec(K["reply"], 0, 0, 1, 7) + mrec(K["remove"], 0, 0, 0, 4) + mrec(K["unfetch"], 1, 0) + mrec(K["end"], 0, 1))
+        s.append(h + mrec(K["add"], 0, 2, 4) + mrec(K["fetch"], 1, 1, 2, join=1) + mrec(K["fetch"], 2, 2, 0, join=1) + mrec(K["call"], 1, 2, 0, 4, 33) + mrec(K["advance"], 0, 6) + mrec(K["connect"], 0, 1, 2)
+                 + mrec(K["batch"], 3, 3) + mrec(K["info"], 3) + mrec(K["get"], 3, 0, 2) + mrec(K["rawreq"], 3, 22, 5, 1) + mrec(K["end"], 1, 2, join=1) + mrec(K["mutreq"], 2, 0, 1, 3, 2))
+    return s
+
 def main():
     ap = argparse.ArgumentParser()
+    ap.add_argument("--prop", default=""); ap.add_argument("--rules", default="")
     ap.add_argument("--binary", required=True); ap.add_argument("--driver", default=""); ap.add_argument("--mode", default="c06")
     ap.add_argument("--variant", default="default"); ap.add_argument("--cases", type=int, default=20000); ap.add_argument("--size", type=int, default=2048)
     ap.add_argument("--seed", type=int, default=1); ap.add_argument("--out", required=True); ap.add_argument("--corpus", default="seeds")
     a = ap.parse_args()
-    prop = "C07" if a.mode == "c07" else "C06"
+    prop = a.prop or ("C07" if a.mode == "c07" else "C06")
     work = a.out + ".work"
     shutil.rmtree(work, ignore_errors=True)
     os.makedirs(os.path.join(work, "corpus")); os.makedirs(os.path.join(work, "art")); os.makedirs(os.path.join(work, "viol"))
     if a.corpus == "seeds":
-        for i, b in enumerate(seeds()):
+        for i, b in enumerate(model_seeds() if a.mode == "model" else seeds()):
             open(os.path.join(work, "corpus", "seed%02d" % i), "wb").write(b)
     stat = os.path.join(work, "stat.json")
-    env = dict(ENV, DFUZZ_MODE=a.mode, DFUZZ_OUT=os.path.join(work, "viol"), DFUZZ_STAT=stat)
+    env = dict(ENV, DFUZZ_MODE=a.mode, DFUZZ_OUT=os.path.join(work, "viol"), DFUZZ_STAT=stat, DFUZZ_PROP=prop)
+    if a.rules: env["DFUZZ_RULES"] = a.rules
     import time
     left = float(os.environ.get("VERIF_DEADLINE") or 0) - time.time()
     extra = ["-max_total_time=%d" % max(10, int(left))] if os.environ.get("VERIF_DEADLINE") else []
